@@ -35,6 +35,18 @@ PID = "C15"
 GEN_DEVS = ["34:000011", "22:000012", "04:000021", "00:000022", "13:000031", "13:000032", "07:000041",
             "10:000051", "01:000111"]
 
+# generator instances (-simulate), eavesdropping on / off.  (Controllers of the model are 01: devices: the protocol
+# refuses 0005 / 000C from a 23: programmer - "Unexpected code for src (PRG) to Tx" - so a programmer's system is only
+# ever configured, never built from claims: see PRG_SCHEMA.)
+GEN_CFGS = (("MC_Topology_gen.cfg", True), ("MC_Topology_gen_ne.cfg", False))
+
+# a configured system of the other controller type the validator accepts (DEVICE_ID_REGEX.CTL), devices of its own
+PRG = "23:000333"
+PRG_SCHEMA = {PRG: {"system": {"appliance_control": "13:000931"},
+                    "stored_hotwater": {"sensor": "07:000941", "hotwater_valve": "13:000932", "heating_valve": "13:000933"},
+                    "zones": {"00": {"class": "zone_valve", "sensor": "12:000911", "actuators": ["13:000934"]},
+                              "01": {"class": "electric_heat", "sensor": "22:000912", "actuators": ["13:000935"]}}}}
+
 # --------------------------------------------------------------------------------------
 # jobs (worker processes)
 
@@ -204,7 +216,7 @@ def transition_tours(cfgfile: str, max_len: int = 60) -> tuple[list[dict], dict]
 
 def kl_variant(n: int, devs: list[str]) -> dict | None:
     """The known_list dimension: nothing listed / the devices that can be faked listed / listed as `faked: true`."""
-    cls = {"34": "THM", "22": "THM", "12": "THM", "03": "THM", "07": "DHW", "04": "TRV", "00": "TRV", "13": "BDR",
+    cls = {"01": "CTL", "23": "PRG", "34": "THM", "22": "THM", "12": "THM", "03": "THM", "07": "DHW", "04": "TRV", "00": "TRV", "13": "BDR",
            "10": "OTB"}
     fakeable = ("THM", "DHW")
     if n % 3 == 0:
@@ -217,9 +229,13 @@ def directed_histories() -> list[dict]:
     """One history per device type the library's own tables permit in a role (DEV_TYPE_MAP.HEAT_ZONE_SENSORS,
     HEAT_ZONE_ACTUATORS, ...): the claim, the same claim again, and a conflicting second claim."""
     from ramses_tx.const import DEV_TYPE_MAP
-    ctl = "01:000111"
-    out = []
+    out: list[dict] = []
+    for t in ctl_types():   # every type the validator accepts as a controller
+        _directed(out, f"{t}:000111" if t == "01" else f"{t}:000333", DEV_TYPE_MAP)
+    return out
 
+
+def _directed(out: list[dict], ctl: str, DEV_TYPE_MAP: Any) -> None:
     def hist(role: str, idx: str, typ: str, tag: str) -> None:
         d1, d2 = f"{typ}:000301", f"{typ}:000302"
         if typ == "01":
@@ -231,7 +247,8 @@ def directed_histories() -> list[dict]:
         # ... then the role is reported empty (a reply that names no device), and the other zone claims the device again
         claims += [{"k": "devs", "ctl": ctl, "idx": idx, "role": role, "devs": []}, dict(claims[3])]
         for eav in (False, True):
-            out.append({"kind": "directed-by-type", "claims": claims, "eavesdrop": eav, "max_zones": 12, "tag": tag})
+            out.append({"kind": "directed-by-type", "claims": claims, "eavesdrop": eav, "max_zones": 12,
+                        "tag": f"{tag}@{ctl[:2]}", "known_list": kl_variant(len(out), [ctl, d1, d2])})
 
     def two_roles(typ: str, act_role: str, sensor_first: bool) -> None:
         """A device that is the sensor *and* an actuator of its zone (an HR92 usually is): both roles claimed, then
@@ -248,7 +265,7 @@ def directed_histories() -> list[dict]:
                                                                    cl("00", "04", [d1]), cl("00", act_role, [d1])]
                 out.append({"kind": "directed-by-type", "claims": claims, "eavesdrop": empty_role == "04",
                             "max_zones": 12, "tag": f"two-roles-{typ}-{act_role}-empty-{empty_role}-then-{then_role}",
-                            "known_list": kl_variant(len(out), [d1])})
+                            "known_list": kl_variant(len(out), [ctl, d1])})
 
     for typ in DEV_TYPE_MAP.HEAT_ZONE_SENSORS:
         hist("04", "00", typ, f"sensor-{typ}")
@@ -263,7 +280,6 @@ def directed_histories() -> list[dict]:
         hist("0E", "00", typ, f"dhw-valve-{typ}")
         hist("0E", "01", typ, f"htg-valve-{typ}")
         hist("0F", "00", typ, f"appliance-{typ}")
-    return out
 
 
 def ufc_histories() -> list[dict]:
@@ -364,6 +380,15 @@ ACT_T = {"radiator_valve": ["04", "00"], "zone_valve": ["13"], "electric_heat": 
          "mixing_valve": [], "underfloor_heating": []}
 
 
+def ctl_types() -> list[str]:
+    """The device types the library's validator accepts as a controller (main_tcs, the keys of the systems)."""
+    from ramses_tx.const import DEVICE_ID_REGEX
+    m = re.match(r"\^\(([0-9|]+)\):", DEVICE_ID_REGEX.CTL.pattern)
+    if not m:
+        raise tlc.MachineryFailure(f"DEVICE_ID_REGEX.CTL not understood: {DEVICE_ID_REGEX.CTL.pattern}")
+    return sorted(m.group(1).split("|"))
+
+
 def gen_schema(rng: random.Random) -> dict:
     n = [100]
 
@@ -372,7 +397,8 @@ def gen_schema(rng: random.Random) -> dict:
         return f"{t}:{n[0]:06d}"
 
     out: dict[str, Any] = {}
-    ctls = [nid("01") for _ in range(rng.randint(1, 3))]
+    types = ctl_types()
+    ctls = [nid(rng.choice(types)) for _ in range(rng.randint(1, 3))]   # every type the validator takes as a controller
     for c in ctls:
         tcs: dict[str, Any] = {}
         zones = {}
@@ -386,7 +412,7 @@ def gen_schema(rng: random.Random) -> dict:
             acts = [nid(rng.choice(ACT_T[cls])) for _ in range(rng.randint(0, 8 if rng.random() < 0.2 else 2))] \
                 if cls and ACT_T[cls] else []
             if st == "01":
-                if not ctl_sensor_used:
+                if not ctl_sensor_used and c[:2] == "01":   # (DEVICE_ID_REGEX.SEN: of the controllers, only an 01:)
                     z["sensor"], ctl_sensor_used = c, True
             elif st == "own" and acts and acts[0][:2] == "04":
                 z["sensor"] = acts[0]
@@ -427,7 +453,8 @@ def schema_devs(sch: dict) -> list[str]:
             out |= set(z.get("actuators") or [])
         out |= set((tcs.get("stored_hotwater") or {}).values())
         out |= {tcs["system"]["appliance_control"]} if (tcs.get("system") or {}).get("appliance_control") else set()
-    return sorted(d for d in out if d and d[:2] != "01")
+    out |= {c for c, tcs in sch.items() if isinstance(tcs, dict)}     # ... and the controllers themselves
+    return sorted(d for d in out if d)
 
 
 # --------------------------------------------------------------------------------------
@@ -666,13 +693,13 @@ def _explore(chk: Check, rng: random.Random, thorough: bool, pool: Any) -> tuple
         except BaseException as err:  # noqa: BLE001
             tc["err"] = err
 
-    ths = [threading.Thread(target=sim, args=(f,)) for f in ("MC_Topology_gen.cfg", "MC_Topology_gen_ne.cfg")]
+    ths = [threading.Thread(target=sim, args=(f,)) for f, _ in GEN_CFGS]
     ths.append(threading.Thread(target=tours))
     [t.start() for t in ths]
     [t.join() for t in ths]
     if "err" in tc:
         raise tc["err"]
-    for cfgfile, eav in (("MC_Topology_gen.cfg", True), ("MC_Topology_gen_ne.cfg", False)):
+    for cfgfile, eav in GEN_CFGS:
         if isinstance(sims[cfgfile], BaseException):
             raise sims[cfgfile]
         for states in sims[cfgfile]:
@@ -680,7 +707,7 @@ def _explore(chk: Check, rng: random.Random, thorough: bool, pool: Any) -> tuple
             model = [model_state(st) for st in states]
             # (the known_list dimension: nothing listed / the thermostats and the DHW sensor listed / listed as faked)
             jobs.append({"kind": "tlc-history", "claims": claims, "eavesdrop": eav, "max_zones": 2, "model": model,
-                         "known_list": kl_variant(len(jobs), GEN_DEVS)})
+                         "known_list": kl_variant(len(jobs), GEN_DEVS + sorted(model[0]["zones"]))})
             for m in model[1:]:
                 sch = y.schema_from_model(m)
                 if sch:
@@ -689,7 +716,8 @@ def _explore(chk: Check, rng: random.Random, thorough: bool, pool: Any) -> tuple
     # every transition of the small instance, the tours taking turns in the three known_list settings
     for n, t in enumerate(tc["tours"]):
         jobs.append({"kind": "tlc-transition-tour", "claims": t["claims"], "eavesdrop": True, "max_zones": 2,
-                     "model": t["model"], "known_list": kl_variant(n, sorted(t["model"][0]["par"]))})
+                     "model": t["model"],
+                     "known_list": kl_variant(n, sorted(t["model"][0]["par"]) + sorted(t["model"][0]["zones"]))})
     jobs += directed_histories()
     jobs += ufc_histories()
     jobs += log_histories(rng, 120 if thorough else 10)
@@ -697,6 +725,13 @@ def _explore(chk: Check, rng: random.Random, thorough: bool, pool: Any) -> tuple
     for j in rng.sample(jobs[:n_hist], min(len(jobs), 60 if thorough else 12)):
         jobs.append({"kind": "tlc-history-other-max-zones", "claims": j["claims"], "eavesdrop": j["eavesdrop"],
                      "max_zones": rng.choice([1, 3, 12, 16])})
+    # ... and on a gateway that has a system of the other controller type (a 23: programmer) configured beside
+    # (contract only: the programmer's system must stay as configured, the reported schema valid and re-loadable)
+    if PRG[:2] in ctl_types():
+        for j in rng.sample(jobs[:n_hist], min(n_hist, 60 if thorough else 12)):
+            jobs.append({"kind": "tlc-history-beside-programmer", "claims": j["claims"], "eavesdrop": j["eavesdrop"],
+                         "max_zones": 2, "schema": json.loads(json.dumps(PRG_SCHEMA)),
+                         "known_list": kl_variant(len(jobs), GEN_DEVS + [PRG] + schema_devs(PRG_SCHEMA))})
     # ---- second driver: schemas from the model's graphs, and larger generated ones ---------
     keys = sorted(graphs)
     rng.shuffle(keys)
@@ -709,9 +744,13 @@ def _explore(chk: Check, rng: random.Random, thorough: bool, pool: Any) -> tuple
             n_rejected += 1
             continue
         sch = graphs[k]
+        if len(jobs) % 2:   # the controller-type dimension: the last controller is a 23: programmer instead
+            last = sorted(c for c in sch if c != "main_tcs")[-1]
+            if not any(z.get("sensor") == last for z in (sch[last].get("zones") or {}).values()):  # (SEN: 01 only)
+                sch = json.loads(json.dumps(sch).replace(last, PRG))
         jobs.append({"kind": "tlc-graph-as-schema", "schema": sch, "max_zones": 2,
                      "eavesdrop": bool(rng.getrandbits(1)), "expect_view": y.schema_view(sch),
-                     "known_list": kl_variant(len(jobs), GEN_DEVS)})
+                     "known_list": kl_variant(len(jobs), GEN_DEVS + sorted(c for c in sch if c != "main_tcs"))})
     for _ in range(300 if thorough else 40):
         sch = gen_schema(rng)
         try:
